@@ -241,3 +241,152 @@ def gen_irblocks(repo, res):
     finally:
         it.ctx.pop()
     _ = copy
+
+
+# ---- the per-form driver ffcx.ir.representation._compute_integral_ir, interpreted as a whole ---------------------------
+
+REP = "ffcx.ir.representation"
+
+
+@rule(
+    "GEN-INTEGRAL-IR",
+    ["C05", "C06", "C08", "C01", "C02", "C11"],
+    "_compute_integral_ir interpreted on a sample form with several integral groups (cell, exterior facet, interior facet, vertex; "
+    "two meshes, two quadrature rules in one group, a prism group with two facet types): after the whole loop every group's record is "
+    "read back and compared with a specification evaluated per group - coefficient offsets = exclusive prefix sums of the element "
+    "dimensions with two restrictions exactly in the interior-facet group, numbering = position in reduced_coefficients, constant "
+    "offsets over the original form's constants, tensor shape (doubled on interior facets, diagonal), entity type, coordinate element "
+    "data of the group's own mesh, enabled flags and name of the group, and the integrand handed on per (cell type, rule) is the sum "
+    "of exactly the integrands filed under that key",
+    min_instances=20,
+)
+def gen_integral_ir(repo, res):
+    m = repo.mod(REP)
+    f = m.func("_compute_integral_ir")
+    res.functions.add(f.key)
+    loc = m.line(f.node)
+    elP2, elP1, elDG = Node("Element", name="P2", dim=6), Node("Element", name="P1", dim=3), Node("Element", name="DG0", dim=1)
+    coefs = [Node("Coefficient", name=n) for n in ("B", "C", "D")]
+    coef_els = [elP1, elP2, elDG]
+    consts = [Node("Constant", name="k0", ufl_shape=()), Node("Constant", name="k1", ufl_shape=(2, 3)), Node("Constant", name="k2", ufl_shape=(2,))]
+
+    def mesh(name, cellname, tdim, h, ncoord):
+        cell = Node("Cell", cellname=cellname, topological_dimension=tdim)
+        ce = Node("CoordinateElement", basix_hash=_PyCall(lambda: h), dim=ncoord)
+        return Node("Mesh", name=name, ufl_cell=_PyCall(lambda: cell), ufl_coordinate_element=_PyCall(lambda: ce), topological_dimension=tdim)
+
+    meshA, meshB = mesh("meshA", "triangle", 2, 111, 6), mesh("meshB", "prism", 3, 222, 18)
+    r1, r2 = Node("QuadratureRule", name="r1"), Node("QuadratureRule", name="r2")
+    # (integral type, mesh, subdomain ids, enabled flags, grouping {cell type: {rule: integrands}})
+    groups = [
+        ("cell", meshA, (1,), [True, False, True], {"triangle": {r1: ["c1", "c2"], r2: ["c3"]}}),
+        ("exterior_facet", meshB, (2, 3), [False, True, True], {"triangle": {r1: ["t1"]}, "quadrilateral": {r1: ["q1", "q2"], r2: ["q3"]}}),
+        ("interior_facet", meshA, ("otherwise",), [True, True, False], {"interval": {r2: ["i1"]}}),
+        ("vertex", meshA, (7,), [False, False, True], {"vertex": {r1: ["v1"]}}),
+        ("cell", meshB, (1,), [True, True, True], {"prism": {r1: ["p1"]}}),
+    ]
+
+    def run(nargs, part):
+        it = Interp(repo, load_classes(repo), primary=REP)
+        it.overrides["logger"] = Node("Logger", info=_PyCall(lambda *a: None), debug=_PyCall(lambda *a: None))
+        it.overrides["typing.cast"] = _PyCall(lambda t, v: v)
+        it.overrides["supported_integral_types"] = "supported_integral_types"
+        it.overrides["np.prod"] = _PyCall(lambda shape, dtype=None: __import__("math").prod(shape))
+        it.overrides["basix_cell_from_string"] = _PyCall(lambda s_: f"CellType.{s_}")
+        idata = []
+        for t_, mesh_, ids, en, grp in groups:
+            itg_objs = [Node("Integral", name=x, ufl_domain=_PyCall(lambda _m=mesh_: _m)) for d in grp.values() for v in d.values() for x in v]
+            idata.append(Node("IntegralData", integral_type=t_, domain=mesh_, subdomain_id=ids, enabled_coefficients=list(en), integrals=itg_objs))
+        by_ints = {id(d.f["integrals"]): g[4] for d, g in zip(idata, groups)}
+
+        def group_fn(integrals, *a, **k):
+            grp = by_ints.get(id(integrals))
+            if grp is None:
+                raise AnalysisError("_group_integrands_by_quadrature_rule is not called with the integrals of the integral data being processed")
+            return {c: {r: list(v) for r, v in d.items()} for c, d in grp.items()}
+        it.overrides["_group_integrands_by_quadrature_rule"] = _PyCall(group_fn)
+        it.overrides["sorted_expr_sum"] = _PyCall(lambda seq: ("sum",) + tuple(seq))
+        it.overrides["Integral"] = _PyCall(lambda integrand, itype, domain, sid, md, dt: Node("Integral", integrand=_PyCall(lambda: integrand), integral_type=_PyCall(lambda: itype),
+                                                                                           ufl_domain=_PyCall(lambda: domain), subdomain_id=_PyCall(lambda: sid)))
+        handed = []
+
+        def cir(cell, itype, etype, integrand_map, tensor_shape, options, visualise):
+            handed.append({"cell": cell, "integral_type": itype, "entity_type": etype, "integrands": {c: dict(d) for c, d in integrand_map.items()}, "tensor_shape": list(tensor_shape)})
+            return {"integrand": {"marker": len(handed)}}
+        it.overrides["compute_integral_ir"] = _PyCall(cir)
+        it.overrides["CommonExpressionIR"] = _PyCall(lambda **k: Node("CommonExpressionIR", **k))
+        it.overrides["IntegralIR"] = _PyCall(lambda **k: Node("IntegralIR", **k))
+        args_el = [elP2, elP1][:nargs] if nargs < 2 else ([elP2, elP2] if part == "diagonal" else [elP2, elP1])
+        fd = Node("FormData", integral_data=idata, rank=nargs, argument_elements=list(args_el), reduced_coefficients=list(coefs), coefficient_elements=list(coef_els),
+                  original_form=Node("Form", constants=_PyCall(lambda: list(consts)), coefficients=_PyCall(lambda: [Node("Coefficient", name="A")] + list(coefs))),
+                  preprocessed_form=Node("Form", constants=_PyCall(lambda: list(consts[1:])), coefficients=_PyCall(lambda: list(coefs[1:]))),
+                  original_coefficient_positions=[1, 2, 3])
+        names = {(4, i): f"integral_{i}" for i in range(len(groups))}
+        out = it.call_f(f, [fd, 4, [elP2, elP1, elDG], names, {"part": part, "sum_factorization": False, "table_rtol": 1e-6, "table_atol": 1e-9}, False])
+        return out, handed, args_el
+
+    for label, nargs, part in (("bilinear form", 2, "full"), ("bilinear form, diagonal", 2, "diagonal"), ("linear form", 1, "full"), ("functional", 0, "full")):
+        try:
+            out, handed, args_el = run(nargs, part)
+        except Raised as e:
+            res.ob(f"{f.key}:{label}:runs")
+            res.fail(f"{f.key}:{label}:runs", f"_compute_integral_ir raises ({e.what}) on the sample {label}", loc)
+            continue
+        if not isinstance(out, list) or len(out) != len(groups) or len(handed) != len(groups):
+            res.ob(f"{f.key}:{label}:one-record-per-group")
+            res.fail(f"{f.key}:{label}:one-record-per-group", f"{len(out) if isinstance(out, list) else out} records / {len(handed)} calls of compute_integral_ir for {len(groups)} integral groups", loc)
+            continue
+        etypes = {"cell": "cell", "exterior_facet": "facet", "interior_facet": "facet", "vertex": "vertex", "ridge": "ridge"}
+        for gi, ((t_, mesh_, ids, en, grp), rec, hd) in enumerate(zip(groups, out, handed)):
+            key = f"{f.key}:{label}:group{gi}:{t_}"
+            res.ob(key)
+            ex = rec.f.get("expression")
+            if not isinstance(ex, Node):
+                res.fail(key, "the record has no expression part", loc)
+                continue
+            g = ex.f
+            width = 2 if t_ == "interior_facet" else 1
+            want_off, acc = {}, 0
+            for c_, e_ in zip(coefs, coef_els):
+                want_off[c_.f["name"]] = acc
+                acc += width * e_.f["dim"]
+            got_off = {k.f["name"]: v for k, v in (g.get("coefficient_offsets") or {}).items()}
+            msgs = []
+            if got_off != want_off:
+                msgs.append(f"coefficient offsets into w are {got_off}, expected {want_off} (element dimensions {[e_.f['dim'] for e_ in coef_els]}, "
+                            f"{'two restrictions' if width == 2 else 'one restriction'} in a {t_} kernel)")
+            got_num = {k.f["name"]: v for k, v in (g.get("coefficient_numbering") or {}).items()}
+            if got_num != {"B": 0, "C": 1, "D": 2}:
+                msgs.append(f"coefficient numbering is {got_num}, expected the position in reduced_coefficients")
+            got_c = {k.f["name"]: v for k, v in (g.get("original_constant_offsets") or {}).items()}
+            if got_c != {"k0": 0, "k1": 1, "k2": 7}:
+                msgs.append(f"constant offsets into c are {got_c}, expected k0->0, k1->1, k2->7 over the original form's constants")
+            dims = [e_.f["dim"] * width for e_ in args_el]
+            want_shape = dims[:1] if (part == "diagonal" and nargs == 2) else dims
+            if list(g.get("tensor_shape", ["<missing>"])) != want_shape or hd["tensor_shape"] != want_shape:
+                msgs.append(f"tensor shape is {g.get('tensor_shape')} (handed to compute_integral_ir: {hd['tensor_shape']}), expected {want_shape}")
+            if (g.get("integral_type"), g.get("entity_type")) != (t_, etypes[t_]) or (hd["integral_type"], hd["entity_type"]) != (t_, etypes[t_]):
+                msgs.append(f"(integral type, entity type) = ({g.get('integral_type')}, {g.get('entity_type')}), expected ({t_}, {etypes[t_]})")
+            ce = mesh_.f["ufl_coordinate_element"].fn()
+            if (g.get("coordinate_element_hash"), g.get("number_coordinate_dofs")) != (ce.f["basix_hash"].fn(), ce.f["dim"]):
+                msgs.append(f"coordinate element hash / dofs = ({g.get('coordinate_element_hash')}, {g.get('number_coordinate_dofs')}), the group's mesh {mesh_.f['name']} has "
+                            f"({ce.f['basix_hash'].fn()}, {ce.f['dim']})")
+            if hd["cell"] is not mesh_.f["ufl_cell"].fn():
+                msgs.append(f"compute_integral_ir receives the cell of another mesh than the group's ({mesh_.f['name']})")
+            if rec.f.get("enabled_coefficients") != en:
+                msgs.append(f"enabled_coefficients = {rec.f.get('enabled_coefficients')}, UFL's integral data says {en}")
+            if g.get("name") != f"integral_{gi}":
+                msgs.append(f"name = {g.get('name')!r}, expected integral_names[(form index, {gi})] = 'integral_{gi}'")
+            want_rank = 1 if (part == "diagonal" and nargs == 2) else nargs
+            if rec.f.get("rank") != want_rank:
+                msgs.append(f"rank = {rec.f.get('rank')}, expected {want_rank}")
+            want_int = {f"CellType.{c}" if not str(c).startswith("CellType") else c: {r.f["name"]: ("sum",) + tuple(v) for r, v in d.items()} for c, d in grp.items()}
+            got_int = {}
+            for c, d in hd["integrands"].items():
+                got_int[c if str(c).startswith("CellType") else f"CellType.{c}"] = {r.f["name"] if isinstance(r, Node) else r: v for r, v in d.items()}
+            if got_int != want_int:
+                msgs.append(f"integrands handed on per (cell type, rule) are {got_int}, expected {want_int}: each rule integrates the sum of exactly its own integrands")
+            if g.get("integrand") != {"marker": gi + 1}:
+                msgs.append("the record does not carry the result computed for its own group (compute_integral_ir's output of another group)")
+            if msgs:
+                res.fail(key, f"{label}, integral group {gi} ({t_} on {mesh_.f['name']}, ids {ids}): " + "; ".join(msgs), loc)
